@@ -4,6 +4,9 @@
 #include "feat_helpers.hpp"
 #include <kernel/lafem/vector_mirror.hpp>
 #include <kernel/lafem/tuple_mirror.hpp>
+#include <kernel/lafem/matrix_mirror.hpp>
+#include <kernel/lafem/sparse_matrix_csr.hpp>
+#include <kernel/lafem/sparse_matrix_bcsr.hpp>
 #include <kernel/lafem/tuple_vector.hpp>
 #include <kernel/lafem/dense_vector_blocked.hpp>
 #include <kernel/global/gate.hpp>
@@ -153,6 +156,50 @@ void sync_emulation()
   H<DT>::end();
 }
 
+// matrix mirrors: buffer(k,l) = A(rows[k], cols[l]) on the buffer pattern (entries of A outside the mirrored rows/columns are not touched)
+template<typename DT>
+void matrix_mirror_cases(Index m, Index n, const Pattern& p, const IL& ri, const IL& ci)
+{
+  typedef LAFEM::SparseMatrixCSR<DT, Index> CSR; typedef LAFEM::SparseMatrixBCSR<DT, Index, 2, 3> BCSR;
+  std::string cfg = str(m) + "x" + str(n) + " [" + pat_str(p) + "] rows[" + join(ri) + "] cols[" + join(ci) + "]";
+  { std::string cn = "matrix mirror csr " + cfg; if(H<DT>::want(cn)) {
+    H<DT>::begin(cn, "{\"part\":\"matrix mirror\"}");
+    Dense<DT> DA, DB; CSR A = make_csr<DT>(m, n, p, "a", &DA), B = make_csr<DT>(m, n, p, "b", &DB); DT alpha = H<DT>::var("alpha", 0.75);
+    int rc = guarded([&] {
+      auto rm = mk_mirror<DT>(m, ri); auto cm = mk_mirror<DT>(n, ci); LAFEM::MatrixMirror<DT, Index> mm(rm, cm);
+      auto buf = mm.create_buffer(A); mm.gather(buf, A);
+      H<DT>::fact("buffer dimensions", buf.rows() == Index(ri.size()) && buf.columns() == Index(ci.size()));
+      // buffer pattern == mirrored part of the matrix pattern; values == mirrored entries
+      Dense<DT> G = dense_zero<DT>(Index(ri.size()), Index(ci.size())); std::vector<std::vector<int>> has(ri.size(), std::vector<int>(ci.size(), 0));
+      for(Index k = 0; k < buf.rows(); ++k) for(Index q = buf.row_ptr()[k]; q < buf.row_ptr()[k + 1]; ++q) { G[k][buf.col_ind()[q]] = buf.val()[q]; has[k][buf.col_ind()[q]] += 1; }
+      bool pat_ok = true;
+      for(size_t k = 0; k < ri.size(); ++k) for(size_t l = 0; l < ci.size(); ++l) { bool in = std::find(p[ri[k]].begin(), p[ri[k]].end(), ci[l]) != p[ri[k]].end(); pat_ok = pat_ok && (has[k][l] == (in ? 1 : 0)); if(in) H<DT>::eq("gather (" + str(Index(k)) + "," + str(Index(l)) + ")", G[k][l], DA[ri[k]][ci[l]]); }
+      H<DT>::fact("buffer pattern == mirrored part of the matrix pattern", pat_ok);
+      mm.scatter_axpy(B, buf, alpha); Dense<DT> R = csr_to_dense<DT>(B);
+      for(Index i = 0; i < m; ++i) for(Index j = 0; j < n; ++j)
+      {
+        auto itr = std::find(ri.begin(), ri.end(), i); auto itc = std::find(ci.begin(), ci.end(), j); bool in = std::find(p[i].begin(), p[i].end(), j) != p[i].end();
+        H<DT>::eq("scatter_axpy (" + str(i) + "," + str(j) + ")", R[i][j], (in && itr != ri.end() && itc != ci.end()) ? DT(DB[i][j] + alpha * DA[i][j]) : DB[i][j]);
+      }
+    });
+    H<DT>::fact("completes", rc == 0, rc == 2 ? "memory fault" : "abort"); H<DT>::end(); } }
+  { std::string cn = "matrix mirror bcsr<2x3> " + cfg; if(H<DT>::want(cn)) {
+    H<DT>::begin(cn, "{\"part\":\"matrix mirror\"}");
+    Dense<DT> DA, DB; BCSR A = make_bcsr<DT, Index, 2, 3, BCSR>(m, n, p, "a", &DA), B = make_bcsr<DT, Index, 2, 3, BCSR>(m, n, p, "b", &DB); DT alpha = H<DT>::var("alpha", 0.75);
+    if(nnz(p) > 0) {
+    int rc = guarded([&] {
+      auto rm = mk_mirror<DT>(m, ri); auto cm = mk_mirror<DT>(n, ci); LAFEM::MatrixMirror<DT, Index> mm(rm, cm);
+      auto buf = mm.template create_buffer<2, 3>(A); mm.template gather<2, 3>(buf, A); mm.template scatter_axpy<2, 3>(B, buf, alpha);
+      for(Index i = 0; i < m; ++i) for(Index q = B.row_ptr()[i]; q < B.row_ptr()[i + 1]; ++q)
+      {
+        const Index j = B.col_ind()[q]; bool mir = std::find(ri.begin(), ri.end(), i) != ri.end() && std::find(ci.begin(), ci.end(), j) != ci.end();
+        for(int a = 0; a < 2; ++a) for(int b = 0; b < 3; ++b) H<DT>::eq("gather + scatter_axpy block (" + str(i) + "," + str(j) + ")[" + str(Index(a)) + str(Index(b)) + "]", B.val()[q](a, b), mir ? DT(DB[i * 2 + Index(a)][j * 3 + Index(b)] + alpha * DA[i * 2 + Index(a)][j * 3 + Index(b)]) : DB[i * 2 + Index(a)][j * 3 + Index(b)]);
+      }
+    });
+    H<DT>::fact("completes", rc == 0, rc == 2 ? "memory fault" : "abort"); }
+    H<DT>::end(); } }
+}
+
 template<typename DT>
 void run_all()
 {
@@ -161,6 +208,9 @@ void run_all()
   gate_cases<DT>(3, {}); gate_cases<DT>(3, {{0}}); gate_cases<DT>(3, {{0, 1}, {1, 2}}); gate_cases<DT>(4, {{0, 1}, {0, 2}, {0, 3}}); gate_cases<DT>(4, {{0, 1, 2}, {0, 2}, {2, 0, 3}});
   if(g_level > 1) gate_cases<DT>(5, {{0, 1}, {0, 2}, {0, 3}, {0, 4, 1}});
   sync_emulation<DT>();
+  // matrix mirrors on 2x2 / 3x2 matrices: every pattern with <= 3 entries, a few ordered row / column mirrors
+  for(auto& p : all_patterns(2, 2, 3)) for(auto& ri : std::vector<IL>{{0}, {1, 0}, {}}) for(auto& ci : std::vector<IL>{{1}, {0, 1}}) matrix_mirror_cases<DT>(2, 2, p, ri, ci);
+  if(g_level > 1) for(auto& p : all_patterns(3, 2, 4)) for(auto& ri : std::vector<IL>{{2, 0}, {1}}) for(auto& ci : std::vector<IL>{{1, 0}, {0}}) matrix_mirror_cases<DT>(3, 2, p, ri, ci);
 }
 
 int main(int argc, char** argv)
